@@ -8,7 +8,10 @@ def files():
     G.add_message(dep, "Inner", [G.F("count", 1, G.T.TYPE_INT32), G.F("label", 2, G.T.TYPE_STRING)])
     G.add_message(dep, "DepReq", [G.F("name", 1, G.T.TYPE_STRING), G.F("tags", 2, G.T.TYPE_STRING, label=G.REPEATED),
                                   G.F("nums", 3, G.T.TYPE_INT32, label=G.REPEATED), G.F("inner", 4, G.T.TYPE_MESSAGE, type_name=".acme.dep.v1.Inner")])
-    fd = G.new_file("acme/lab/v1/lab.proto", "acme.lab.v1", deps=G.STD_DEPS + ["acme/dep/v1/dep.proto"])
+    # a request declared in resource.proto whose flattened *scalar* field is called `resource`: the parameter name equals the module name
+    rs = G.new_file("acme/lab/v1/resource.proto", "acme.lab.v1")
+    G.add_message(rs, "GetResourceRequest", [G.F("resource", 1, G.T.TYPE_STRING), G.F("view", 2, G.T.TYPE_STRING)])
+    fd = G.new_file("acme/lab/v1/lab.proto", "acme.lab.v1", deps=G.STD_DEPS + ["acme/dep/v1/dep.proto", "acme/lab/v1/resource.proto"])
     G.add_message(fd, "Spec", [G.F("size", 1, G.T.TYPE_INT32), G.F("class", 2, G.T.TYPE_STRING)])
     req = G.add_message(fd, "Req", [G.F("parent", 1, G.T.TYPE_STRING), G.F("count", 2, G.T.TYPE_INT32, proto3_optional=True, oneof_index=0),
                                     G.F("force", 3, G.T.TYPE_BOOL, proto3_optional=True, oneof_index=1),
@@ -27,12 +30,13 @@ def files():
                  signatures=["resource,permissions"])
     G.add_method(svc, "Wait", ".google.longrunning.WaitOperationRequest", ".acme.lab.v1.Resp", http=("post", "/v1/{name=p/*}:w"), body="*",
                  signatures=["name,timeout.seconds"])
+    G.add_method(svc, "GetResource", ".acme.lab.v1.GetResourceRequest", ".acme.lab.v1.Resp", http=("get", "/v1/{resource=r/*}"), signatures=["resource,view"])
     fd.dependency.append("google/iam/v1/iam_policy.proto")
-    return [dep, fd]
+    return [dep, rs, fd]
 
 
 def drop_method(fs, names):
-    svc = fs[1].service[0]
+    svc = fs[-1].service[0]
     keep = [m for m in svc.method if m.name not in names]
     del svc.method[:]
     svc.method.extend(keep)
@@ -42,7 +46,7 @@ def drop_method(fs, names):
 def files_two_repeated():
     fs = files()
     from google.api import client_pb2
-    m = fs[1].service[0].method[1]
+    m = fs[-1].service[0].method[1]
     del m.options.Extensions[client_pb2.method_signature][:]
     m.options.Extensions[client_pb2.method_signature].append("name,tags,nums")
     return drop_method(fs, ["Wait"])
@@ -60,7 +64,7 @@ def _drive_groups(fs, groups, compile_only=False):
     import grpc
     failures = []
     from google.iam.v1 import iam_policy_pb2
-    api, res = G.generate(fs, "autogen-snippets=false", to_generate=["acme/lab/v1/lab.proto"], extra_dep_modules=(iam_policy_pb2,))
+    api, res = G.generate(fs, "autogen-snippets=false", to_generate=["acme/lab/v1/lab.proto", "acme/lab/v1/resource.proto"], extra_dep_modules=(iam_policy_pb2,))
     for f in res.file:
         if f.name.endswith(("client.py", "async_client.py")):
             try:
@@ -126,9 +130,12 @@ def scenarios():
     ]
     pb2 = [(dict(resource="p/1", permissions=["x", "y"]), lambda R, L: R(resource="p/1", permissions=["x", "y"])),
            (dict(resource="p/1"), lambda R, L: R(resource="p/1")), (dict(permissions=[]), lambda R, L: R()), ({}, lambda R, L: R())]
+    shadow = [(dict(resource="r/1", view="FULL"), lambda R, L: R(resource="r/1", view="FULL")), (dict(resource="r/1"), lambda R, L: R(resource="r/1")),
+              ({}, lambda R, L: R())]
     fails = _drive_groups(drop_method(files(), ["Dep", "Wait"]),
-                          [("update", ("acme.lab_v1", "Req"), main), ("perm", ("google.iam.v1.iam_policy_pb2", "TestIamPermissionsRequest"), pb2)])
-    return {"cases": 2 * (len(main) + len(pb2)) * 2, "failures": fails}
+                          [("update", ("acme.lab_v1", "Req"), main), ("perm", ("google.iam.v1.iam_policy_pb2", "TestIamPermissionsRequest"), pb2),
+                           ("get_resource", ("acme.lab_v1", "GetResourceRequest"), shadow)])
+    return {"cases": 2 * (len(main) + len(pb2) + len(shadow)) * 2, "failures": fails}
 
 
 def witness_two_repeated_pb2():
